@@ -22,6 +22,7 @@ import (
 	"os"
 	"os/exec"
 	"reflect"
+	"runtime"
 	"sort"
 	"strings"
 	"sync"
@@ -37,6 +38,7 @@ func init() {
 	drivers["C12"] = driveC12
 	children["concstress"] = concStressChild
 	children["tzhammer"] = tzHammerChild
+	children["bankhammer"] = bankHammerChild
 }
 
 type gateType struct{ X int64 }
@@ -303,6 +305,25 @@ func concStressChild(args []string) int {
 		}
 		enc.Flush()
 	}
+	// process history before the concurrent phase: one bank that has held a very large record (and was closed), a few
+	// banks of ordinary size in the pool
+	{
+		big := strings.Repeat("x", 200000)
+		w := avro.NewWriteBuf(nil)
+		w.Varint(int64(len(big)))
+		w.Write([]byte(big))
+		for i := 0; i < 3; i++ {
+			r := avro.NewReadBuf(w.Bytes())
+			var s string
+			avro.StringCodec{}.Read(r, unsafe.Pointer(&s))
+			var p *int64
+			pc := avro.PointerCodec{Codec: avro.Int64Codec{}}
+			r2 := avro.NewReadBuf([]byte{2})
+			pc.Read(r2, unsafe.Pointer(&p))
+			r.ExtractResourceBank().Close()
+			r2.ExtractResourceBank().Close()
+		}
+	}
 	banks := make(chan *avro.ResourceBank, 1024)
 	for g := 0; g < ng; g++ {
 		wg.Add(1)
@@ -310,7 +331,28 @@ func concStressChild(args []string) int {
 			defer wg.Done()
 			rng := rand.New(rand.NewSource(seed*1000 + int64(g)))
 			for k := 0; k < nops; k++ {
-				switch rng.Intn(7) {
+				switch rng.Intn(8) {
+				case 7: // a tight loop of small string decodes, each with a bank of its own (drawn from and returned to the pool)
+					mine := []string{fmt.Sprintf("goroutine %d string A, long enough to matter", g), fmt.Sprintf("g%d-B", g), fmt.Sprintf("goroutine %d string C %s", g, strings.Repeat("c", 40))}
+					seen := map[[2]string]int{}
+					for it := 0; it < 300; it++ {
+						want := mine[it%3]
+						wb := avro.NewWriteBuf(nil)
+						wb.Varint(int64(len(want)))
+						wb.Write([]byte(want))
+						r := avro.NewReadBuf(wb.Bytes())
+						var got, got2 string
+						avro.StringCodec{}.Read(r, unsafe.Pointer(&got))
+						r.Reset(wb.Bytes())
+						avro.StringCodec{}.Read(r, unsafe.Pointer(&got2))
+						runtime.Gosched()
+						seen[[2]string{want, strings.Clone(got)}]++ // looked at (and copied) while the bank is still ours
+						seen[[2]string{want, strings.Clone(got2)}]++
+						r.ExtractResourceBank().Close()
+					}
+					for k, n := range seen {
+						results[g] = append(results[g], stressRecord{Op: "conc_str", G: g, N: n, S: byteList([]byte(k[0])), Bytes: byteList([]byte(k[1]))})
+					}
 				case 0, 1: // encode + decode with the shared codec into private memory
 					idx := rng.Intn(len(sharedTypes))
 					shared := sharedCodecs[idx]
@@ -417,6 +459,83 @@ func concStressChild(args []string) int {
 // timestamp over and over (a few goroutines share each zone offset, so the zone cache is shared); the distinct
 // results it observed are recorded with their counts (de-duplication, not judgement: every distinct
 // (text, result) pair is judged by TLC).
+// bankHammerChild: after one very large record has been decoded and its bank closed, many goroutines at full speed
+// decode small strings, each into a bank of its own that it draws from and returns to the pool on every iteration;
+// each looks at its string while the bank is still its own. Distinct (wanted, got) pairs are recorded with counts.
+func bankHammerChild(args []string) int {
+	var seed int64
+	var ng, n int
+	fmt.Sscan(args[0], &seed)
+	fmt.Sscan(args[1], &ng)
+	fmt.Sscan(args[2], &n)
+	{
+		big := strings.Repeat("x", 200000)
+		w := avro.NewWriteBuf(nil)
+		w.Varint(int64(len(big)))
+		w.Write([]byte(big))
+		r := avro.NewReadBuf(w.Bytes())
+		var s string
+		avro.StringCodec{}.Read(r, unsafe.Pointer(&s))
+		r.ExtractResourceBank().Close()
+	}
+	results := make([]map[[2]string]int, ng)
+	var wg sync.WaitGroup
+	start := make(chan struct{})
+	for g := 0; g < ng; g++ {
+		wg.Add(1)
+		go func(g int) {
+			defer wg.Done()
+			mine := []string{fmt.Sprintf("goroutine %d string A, long enough to matter", g), fmt.Sprintf("g%d-B", g), fmt.Sprintf("goroutine %d string C %s", g, strings.Repeat("c", 40))}
+			bufs := make([][]byte, len(mine))
+			for i, m := range mine {
+				wb := avro.NewWriteBuf(nil)
+				wb.Varint(int64(len(m)))
+				wb.Write([]byte(m))
+				bufs[i] = append([]byte{}, wb.Bytes()...)
+			}
+			seen := map[[2]string]int{}
+			<-start
+			func() {
+				defer func() {
+					if rec := recover(); rec != nil {
+						seen[[2]string{"no panic", "panic: " + fmt.Sprint(rec)}]++
+					}
+				}()
+				for it := 0; it < n; it++ {
+					want := mine[it%3]
+					r := avro.NewReadBuf(bufs[it%3])
+					var got string
+					avro.StringCodec{}.Read(r, unsafe.Pointer(&got))
+					if it%64 == 0 {
+						runtime.Gosched()
+					}
+					if got != want { // de-duplication only: every distinct pair goes to the judge
+						seen[[2]string{want, strings.Clone(got)}]++
+					} else if it < 3 {
+						seen[[2]string{want, want}]++
+					}
+					r.ExtractResourceBank().Close()
+				}
+			}()
+			results[g] = seen
+		}(g)
+	}
+	close(start)
+	wg.Wait()
+	f, err := os.Create(args[3])
+	if err != nil {
+		return 2
+	}
+	defer f.Close()
+	enc := json.NewEncoder(f)
+	for g, seen := range results {
+		for k, cnt := range seen {
+			enc.Encode(stressRecord{Op: "conc_str", G: g, N: cnt, S: byteList([]byte(k[0])), Bytes: byteList([]byte(clipS(k[1], 200)))})
+		}
+	}
+	return 0
+}
+
 func tzHammerChild(args []string) int {
 	var seed int64
 	var ng, n int
@@ -558,6 +677,26 @@ func driveC12(c *driverCtx) error {
 		}
 	}
 	c.extra["tzhammer_rounds"] = c.pick(10, 40)
+	// (1c) bank-pool hammer in ordinary (fast) children
+	for round := 0; round < c.pick(6, 30); round++ {
+		self, _ := os.Executable()
+		out := c.rec.dir + "/bankhammer.ndjson"
+		cmd := exec.Command(self, "-child", "bankhammer", fmt.Sprint(c.seed*100+int64(round)), fmt.Sprint(8+round%9), fmt.Sprint(c.pick(150000, 600000)), out)
+		var stderr bytes.Buffer
+		cmd.Stderr = &stderr
+		err := runWithTimeout(cmd, 3*time.Minute)
+		events, lerr := loadTLCcases(out)
+		os.Remove(out)
+		if err != nil || lerr != nil {
+			c.rec.NewCase()
+			c.rec.Emit("C12|bankhammer", map[string]any{"op": "conc_crash", "detail": clipS(stderr.String(), 1500)})
+			continue
+		}
+		for _, e := range events {
+			c.rec.NewCase()
+			c.rec.Emit("C12|bankhammer", e)
+		}
+	}
 	// (2) stress in a -race child
 	raceBin := os.Getenv("VERIF_RACE_BIN")
 	if raceBin == "" {
@@ -622,7 +761,7 @@ func driveC12(c *driverCtx) error {
 					e["schema"] = schemaNodes[int(idx)]
 				}
 				c.rec.Emit(key, e)
-			case "conc_time":
+			case "conc_time", "conc_str":
 				c.rec.Emit(key, e)
 			case "conc_file":
 				e["inputs"] = fileInputs
